@@ -1134,10 +1134,23 @@ class Variable(GlobalValue):
         self.value = value
 
     def __str__(self):
-        return (
+        txt = (
             f"{self.binding} variable {self.name} "
             + f"({self.amount} bytes aligned at {self.alignment})"
         )
+        if self.value is not None:
+            parts = []
+            for part in self.value:
+                if isinstance(part, bytes):
+                    data = hexlify(part).decode("ascii")
+                    parts.append(f"'{data}'")
+                elif isinstance(part, tuple) and part[0] is ptr:
+                    # Address of a label:
+                    parts.append(f"&{part[1]}")
+                else:
+                    raise NotImplementedError(str(part))
+            txt += " = [" + ", ".join(parts) + "]"
+        return txt
 
 
 class Parameter(LocalValue):
